@@ -204,22 +204,39 @@ theorem mgh_clips_known_finding :
 
 /-! ## exact integer → integer paths -/
 
-/-- IU2IU EXACT: when the slope+intercept writer takes its intercept-only branch (data range fits the shared type
-    range) the stored `(1, inter)` reloads every integer `v ∈ [mn, mx]` exactly; likewise the sign-flip branch
-    `(−1, 0)` of the slope writers for unsigned output.  (`sh = shared_range(float32, out)`, `bm ⊇ sh` the shared range
-    of the working type.) -/
+/- FULL STATEMENT (true of the exact-arithmetic model, i.e. with `conv v = v` for every integer):
+     integer → integer writes that use the intercept only, or the sign flip, reload EVERY `v ∈ [mn, mx]` exactly.
+   The real code converts the integer data to the working float type first (`data - inter` in float64 for 32/64-bit
+   input), so it needs the hypothesis carried below: the value is exactly representable in the working float.
+   Without it the pinned code violates the statement — open finding `int64:beyond-float64-precision`
+   ([2**62, 2**62+500, 2**62+1000] int64 → int16 stores [0, 0, 1024] with slope 1, intercept 2**62). -/
+
+/-- IU2IU EXACT (`conv` = NumPy's conversion of the integer input to the working float type): when the slope+intercept
+    writer takes its intercept-only branch (data range fits the shared type range) the stored `(1, inter)` reloads every
+    integer `v ∈ [mn, mx]` WHOSE CONVERSION IS EXACT (`conv v = v`) exactly; likewise the sign-flip branch `(−1, 0)` of
+    the slope writers for unsigned output.  (`sh = shared_range(float32, out)`, `bm ⊇ sh` the shared range of the
+    working type.) -/
 theorem iu2iu_exact (w : Writer) (rnd : Rat → Rat) (p32 : Nat) (o : OutT) (sh bm : Int × Int) (mn mx : Int)
+    (conv : Int → Rat)
     (hmm : mn ≤ mx) (hbm1 : bm.1 ≤ sh.1) (hsh0 : sh.1 ≤ 0) (hbm2 : sh.2 ≤ bm.2) :
     (mx - mn ≤ sh.2 - sh.1 → (sh.1 = 0 ∨ sh.2 ≤ -sh.1) →
       let inter := if sh.1 = 0 then floorExact p32 (mn - sh.1) else floorExact p32 (mn + (mx - mn + 1) / 2)
       mx - inter ≤ sh.2 →
         iu2iuInter rnd p32 o sh mn mx = .ok (1, (inter : Rat)) ∧
-        ∀ v : Int, mn ≤ v → v ≤ mx → applyReadScaling 1 inter (scaleFin 1 inter mn mx bm.1 bm.2 v) = v) ∧
+        ∀ v : Int, mn ≤ v → v ≤ mx → conv v = (v : Rat) →
+          applyReadScaling 1 inter (scaleFin 1 inter mn mx bm.1 bm.2 (conv v)) = v) ∧
     (o.isU = true → mx ≤ 0 → (mn.natAbs : Int) ≤ sh.2 →
         iu2iuSlope w rnd o sh mn mx = .ok (-1, 0) ∧
-        ∀ v : Int, mn ≤ v → v ≤ mx → applyReadScaling (-1) 0 (scaleFin (-1) 0 mn mx bm.1 bm.2 v) = v) :=
-  ⟨fun hfit hsym => iu2iu_inter_exact hmm hfit hsym hbm1 hbm2,
-   fun hU hneg hfit => iu2iu_flip_exact hU hmm hneg hfit (by omega) hbm2⟩
+        ∀ v : Int, mn ≤ v → v ≤ mx → conv v = (v : Rat) →
+          applyReadScaling (-1) 0 (scaleFin (-1) 0 mn mx bm.1 bm.2 (conv v)) = v) :=
+  by
+  refine ⟨?_, ?_⟩
+  · intro hfit hsym inter htop
+    have h := iu2iu_inter_exact (rnd := rnd) (p32 := p32) (o := o) hmm hfit hsym hbm1 hbm2 htop
+    exact ⟨h.1, fun v h1 h2 hc => h.2 conv v h1 h2 hc⟩
+  · intro hU hneg hfit
+    have h := iu2iu_flip_exact (w := w) (rnd := rnd) hU hmm hneg hfit (by omega) hbm2
+    exact ⟨h.1, fun v h1 h2 hc => h.2 conv v h1 h2 hc⟩
 
 example : iu2iuInter id 24 ⟨0, 255⟩ (0, 255) 1000 1200 = .ok (1, 1000) ∧
     iu2iuSlope .slope id ⟨0, 255⟩ (0, 255) (-200) (-3) = .ok (-1, 0) := by decide +kernel
